@@ -201,6 +201,44 @@ def run(tier='quick', seed=0, only=None, verbose=False):
                         rep.violation(dict(property='C02', key=f"{k}|{b}|vec={vec}", kind='argument-values',
                                            what=f"{k}: argument {name} is {v[:6]} on backend {b} and {ref[name][:6]} on numpy"))
     rep.section('argument_values', compared=n_cmp)
+    # same solver settings -> same trajectories: each backend's own fixed-step kernel (BaseBackend, TorchBackend, JaxBackend
+    # _solve_euler/_solve_heun) integrates ONE uninterpreted, time-dependent vector field; all must return the same
+    # reference iterates (harness of C03, a small grid here)
+    from . import c03
+    kj = []
+    for steps, store in ((2, 1), (3, 1), (4, 2)) if tier == 'quick' else ((2, 1), (3, 1), (4, 2), (5, 1), (6, 3), (7, 2)):
+        for backend, heuns, t0 in (('base', (False, True), 'sym'), ('torch', (False,), 0), ('jax', (False, True), 0)):
+            for heun in heuns:
+                kj.append(dict(kind='kernel', backend=backend, heun=heun, steps=steps, store=store, rem=0,
+                               n=1 + steps % 2, t0=t0,
+                               key=f"trajectory:{backend}:{'heun' if heun else 'euler'}:steps={steps}:store={store}"))
+    if only:
+        kj = [j for j in kj if only in j['key']]
+    alias = {}
+    if kj:
+        for pj, outc in runner.run_jobs(c03._alias_job, [dict(key=f"alias:{b}", backend=b) for b in ('base', 'torch', 'jax')],
+                                        timeout=300):
+            if not outc['ok']:
+                rep.harness_error(f"{pj['key']}: {outc['error']}")
+                continue
+            alias[pj['backend']] = outc['result']
+    for j in kj:
+        j['alias'] = alias.get(j['backend'])
+    for job, outc in runner.run_jobs(c03.kernel_job, kj, timeout=600):
+        if not outc['ok']:
+            rep.harness_error(f"{job['key']}: {outc['error']} {outc.get('tb', '')[-400:]}")
+            continue
+        r = outc['result']
+        rep.add_stats(outc['stats'])
+        rep.add_tally(r['tally'])
+        rep.program(job['key'], nontrivial=bool(r['tally']['obligations']))
+        rep.section('trajectories', jobs=1, obligations=r['tally']['obligations'])
+        for v in r['violations']:
+            rec = dict(property='C02', key=job['key'], job={k: str(x) for k, x in job.items()}, **v)
+            rec['what'] = f"{job['key']}: {v['what']}"
+            rep.violation(rec, findings.attribute('C02', job, rec))
+        for i in r['inconclusive']:
+            rep.inconcl(dict(key=job['key'], **{k: str(x)[:200] for k, x in i.items()}))
     return rep.finish(rule='program = (spec, backend in numpy/torch/jax, vectorize, vector-field convention); one SMT '
                            'obligation per state variable: emitted derivative == the same reference semantics for all '
                            'backends; plus concrete comparison of the returned argument values by name')
